@@ -1,6 +1,6 @@
 (* One entry point for the extracted model: property number, case integers -> observation. *)
 From Coq Require Import List ZArith.
-From IdV Require Import Lib.Wire Run.C19Run Run.C12Run Run.C13Run Run.C11Run.
+From IdV Require Import Lib.Wire Run.C19Run Run.C12Run Run.C13Run Run.C11Run Run.C18Run.
 Import ListNotations.
 Open Scope Z_scope.
 
@@ -9,4 +9,5 @@ Definition run_case (prop : Z) (input : list Z) : list Z :=
   else if prop =? 11 then c11_run input
   else if prop =? 12 then c12_run input
   else if prop =? 13 then c13_run input
+  else if prop =? 18 then c18_run input
   else ERR_DECODE.
